@@ -55,6 +55,9 @@ CHECKS = {
  "C16": (FE, "DESIGN.md §3 C16", "runtime monitoring with fault injection: cut-wrapper on the stub's own connection at enumerated handshake byte offsets, Start/Stop/Wait/loss histories, hang rule with goroutine dumps, hook-delayed close notification, race detector",
          "The handshake is cut at byte offsets in both directions (every offset in the thorough tier) and fixed plus random histories of Start, failing Start, Stop, Wait, connection loss are executed; every call must return, a later Start on a fresh connection must work and survive the earlier session's late notification, the close notification fires once per established session.",
          "Whether OnClose also fires for a never-established attempt is not asserted; the first Start is bounded by the stub's built-in 5 s registration timeout."),
+ "C17": (FE, "DESIGN.md §3 C17", "runtime monitoring with fault injection: raw protocol peers with enumerated names/indices/masks/stall points ahead of a real stub plugin through the real socket; activation observed at the peers; filesystem-mode and connect probes under several umasks; race detector",
+         "Every listed ill- or well-formed registration (names, index strings, all single mask bits valid and invalid, random masks, five stall points, up to four of them ahead of a good plugin) is executed against the real adaptation; a peer must be synchronized and receive events iff it is well-formed and timely, the good plugin must get through within the bound; directories NRI creates for the socket must be private under umask 000-077; no socket when external connections are disabled.",
+         "Timeouts 800/500 ms via NRI's setters; at most three silent peers per case."),
  "C19": (EX, "DESIGN.md §3 C19", "runtime monitoring: online mutual-exclusion counters in the update callback and lifecycle handlers, offline exactly-once/equality checker over unique update ids, porcupine sequencer model, race detector",
          "Plugins issue unsolicited updates concurrently with each other and with lifecycle requests; the callback's overlap with itself and with any handler is counted online; arguments and results are compared by unique id offline.",
          "Overlap is observed at the callback and handler boundaries of one process; empty update lists carry no id and are not generated."),
